@@ -63,11 +63,34 @@ func (e *slEngine) immutable(v ssa.Value) (bool, string) {
 				return e.Immutable(x.Call.Args[idx])
 			}
 		}
+		if idxs, ok := stdSubstringResults(x); ok && idxs[0] {
+			return e.Immutable(x.Call.Args[0])
+		}
+		if g := iifeCallee(x); g != nil && g.Signature.Results().Len() == 1 {
+			for _, r := range returnsOf(g) {
+				if ok, why := e.Immutable(r.Results[0]); !ok {
+					return false, why
+				}
+			}
+		}
 		return true, ""
 	case *ssa.Extract:
 		if call, ok := x.Tuple.(*ssa.Call); ok {
 			if _, isNC := isModCall(call, "parser.NextChunk"); isNC && (x.Index == 0 || x.Index == 1) {
 				return e.Immutable(call.Call.Args[0])
+			}
+			if idxs, ok := stdSubstringResults(call); ok && idxs[x.Index] {
+				return e.Immutable(call.Call.Args[0])
+			}
+			if g := iifeCallee(call); g != nil {
+				for _, r := range returnsOf(g) {
+					if x.Index < len(r.Results) {
+						if ok, why := e.Immutable(r.Results[x.Index]); !ok {
+							return false, why
+						}
+					}
+				}
+				return true, ""
 			}
 		}
 		return true, ""
@@ -117,6 +140,13 @@ func (e *slEngine) immutable(v ssa.Value) (bool, string) {
 		return true, ""
 	case *ssa.Parameter:
 		fn := x.Parent()
+		if site := iifeSiteCached(fn); site != nil {
+			for i, p := range fn.Params {
+				if p == x && i < len(site.Call.Args) {
+					return e.Immutable(site.Call.Args[i])
+				}
+			}
+		}
 		if fn.Parent() == nil && fn.Object() != nil && fn.Object().Exported() && fn.Pkg != nil && fn.Pkg.Pkg.Path() == modPath {
 			return true, "" // a caller's Go string (public API)
 		}
@@ -237,9 +267,37 @@ func (e *slEngine) compute(v ssa.Value, at ssa.Instruction) (bool, string) {
 			if _, isNC := isModCall(call, "parser.NextChunk"); isNC && x.Index == 0 {
 				return true, "result 0 of parser.NextChunk (the text before the first line break)"
 			}
+			if idxs, ok := stdSubstringResults(call); ok && idxs[x.Index] {
+				ok, why := e.SL(call.Call.Args[0], at)
+				if ok {
+					return true, "substring (" + calleeName(call) + ") of a single-line value"
+				}
+				return false, "substring of: " + why
+			}
+			if g := iifeCallee(call); g != nil {
+				for _, r := range returnsOf(g) {
+					if x.Index >= len(r.Results) {
+						return false, "tuple element of " + describe(x.Tuple)
+					}
+					if ok, why := e.SL(r.Results[x.Index], r); !ok {
+						return false, "result of an inlined helper: " + why
+					}
+				}
+				return true, "every result of the inlined helper is single-line"
+			}
 		}
 		return false, "tuple element of " + describe(x.Tuple)
 	case *ssa.Slice:
+		// s[:i] with (i, _) = NewlineIndex(s): the text before the first line break
+		if x.Low == nil && x.High != nil {
+			if ex, ok := x.High.(*ssa.Extract); ok && ex.Index == 0 {
+				if call, ok := ex.Tuple.(*ssa.Call); ok {
+					if _, isNI := isModCall(call, "parser.NewlineIndex"); isNI && (call.Call.Args[0] == x.X || sameValue(call.Call.Args[0], x.X)) {
+						return true, "s[:index] with index = NewlineIndex(s).index (the text before the first line break)"
+					}
+				}
+			}
+		}
 		ok, why := e.SL(x.X, at)
 		if ok {
 			return true, "slice of a single-line value"
@@ -267,6 +325,21 @@ func (e *slEngine) compute(v ssa.Value, at ssa.Instruction) (bool, string) {
 			if isSLFieldGetter(callee) {
 				return true, "getter of a single-line field (" + fnLabel(callee) + ")"
 			}
+		}
+		if idxs, ok := stdSubstringResults(x); ok && idxs[0] {
+			ok, why := e.SL(x.Call.Args[0], at)
+			if ok {
+				return true, "substring (" + calleeName(x) + ") of a single-line value"
+			}
+			return false, "substring of: " + why
+		}
+		if g := iifeCallee(x); g != nil && g.Signature.Results().Len() == 1 {
+			for _, r := range returnsOf(g) {
+				if ok, why := e.SL(r.Results[0], r); !ok {
+					return false, "result of an inlined helper: " + why
+				}
+			}
+			return true, "every result of the inlined helper is single-line"
 		}
 		return false, "result of call " + describe(x)
 	case *ssa.Field:
@@ -298,6 +371,15 @@ func (e *slEngine) compute(v ssa.Value, at ssa.Instruction) (bool, string) {
 		}
 		return false, "load of " + describe(addr)
 	case *ssa.Parameter:
+		if g := x.Parent(); g != nil {
+			if site := iifeSiteCached(g); site != nil {
+				for i, p := range g.Params {
+					if p == x && i < len(site.Call.Args) {
+						return e.SL(site.Call.Args[i], site)
+					}
+				}
+			}
+		}
 		fn := x.Parent()
 		idx := -1
 		for i, p := range fn.Params {
@@ -431,4 +513,18 @@ func slAddrEscapes(P *Program, owner, name string) []FieldAccess {
 		}
 	}
 	return out
+}
+
+// stdSubstringResults: the call is to a standard-library function whose listed results are substrings
+// of its first argument (so they are single-line / immutable whenever that argument is).
+func stdSubstringResults(call *ssa.Call) (map[int]bool, bool) {
+	switch calleeName(call) {
+	case "strings.Cut":
+		return map[int]bool{0: true, 1: true}, true
+	case "strings.CutPrefix", "strings.CutSuffix":
+		return map[int]bool{0: true}, true
+	case "strings.TrimPrefix", "strings.TrimSuffix", "strings.TrimSpace", "strings.Trim", "strings.TrimLeft", "strings.TrimRight", "strings.TrimFunc", "strings.TrimLeftFunc", "strings.TrimRightFunc":
+		return map[int]bool{0: true}, true
+	}
+	return nil, false
 }
